@@ -257,6 +257,32 @@ func (rw *rewriter) file(f *ast.File) {
 				rw.used = true
 			}
 		}
+		// sync/atomic operations are scheduling points: a check-then-act sequence
+		// on atomics is free of data races but not atomic as a whole. The call
+		//	x.Op(args)   becomes   verifrt.AtomicNR(site, x.Op, args)
+		// which yields to the scheduler and then performs the operation.
+		{
+			p, _, _ := rw.methodOf(c)
+			if p != "sync/atomic" {
+				p, _ = rw.funcOf(c)
+			}
+			if p == "sync/atomic" && !handled[c] {
+				handled[c] = true
+				if len(c.Args) > 3 || c.Ellipsis.IsValid() {
+					rw.refuse(c, "sync/atomic call shape not supported")
+				} else {
+					kind := "V"
+					if tv, ok := rw.info.Types[c]; ok && tv.Type != nil {
+						if tup, isTup := tv.Type.(*types.Tuple); !isTup || tup.Len() > 0 {
+							kind = "R"
+						}
+					}
+					name := fmt.Sprintf("Atomic%d%s", len(c.Args), kind)
+					c.Args = append([]ast.Expr{rw.site(c, "atomic"), c.Fun}, c.Args...)
+					c.Fun = rt(name)
+				}
+			}
+		}
 		if p, t, m := rw.methodOf(c); p == "golang.org/x/sync/errgroup" && t == "Group" && (m == "Go" || m == "TryGo") {
 			rw.refuse(c, "errgroup goroutines are not under the simulator's control")
 		}
